@@ -290,6 +290,15 @@ func C13(r *ev.Run) {
 		m := &mon.Silence{}
 		return m, func() ([]mon.V, map[string]int64) { return m.Viols, m.Cnt }
 	}, func(b *Built, cnt map[string]int64) bool {
+		if b.Spec.Profile == "watch" && b.C.AllValidatorsDone() {
+			// reported, not asserted (DESIGN 5.17): an observer that received all commits of a height before it
+			// could use them is not woken up again and stays behind until the application syncs the block
+			for _, n := range b.C.Nodes {
+				if n.Role == vnet.Honest && n.Live() && n.D.Validators != nil && n.D.Context.WatchOnly() && n.Height() < b.C.TargetHeight() && len(n.RejectBlocks) == 0 && len(n.RejectFrom) == 0 {
+					r.Count("observation:watch-only-nodes-left-behind-at-end-of-run", 1)
+				}
+			}
+		}
 		return cnt["watch-only-api-returns-while-primary"] > 0 || cnt["watch-only-blocks-observed"] > 0
 	})
 	r.Floor("watch-only-api-returns:OnReceive", 20000)
